@@ -1,9 +1,9 @@
 /-
 C27 model: reported memory accesses.
 
-  * `DefaultHandler::memory_accesses`     quil-rs/src/instruction/mod.rs:987-1307 (helpers 994-1096,
-                                          the match 1100-1306)
-  * `Call::default_memory_accesses`       quil-rs/src/instruction/extern_call.rs:1004-1056
+  * `DefaultHandler::memory_accesses`     quil-rs/src/instruction/mod.rs:1009-1346 (helpers 1016-1118,
+                                          the match 1122-1345), as of /repo fix: commits 9c5e66f, 595a980
+  * `Call::default_memory_accesses`       quil-rs/src/instruction/extern_call.rs:1004-1060, as of fix: 8044518
   * `Expression::memory_references`       quil-rs/src/program/memory.rs:120-226 (explicit-stack DFS)
   * `WaveformInvocation::memory_references` quil-rs/src/program/memory.rs:228-235
   * `MemoryAccesses::{none, union}`       quil-rs/src/program/memory.rs:76-94
